@@ -160,6 +160,13 @@ def _table(case, rng):
         _, _, k, L, bs, bi, bj = case[:7]
         T = _tuples("alpha", k, L)
         groups = T[bi * bs:(bi + 1) * bs] + (T[bj * bs:(bj + 1) * bs] if bj != bi else [])
+    elif case[1] == "ws":
+        # tuples that differ only by leading / trailing white space in one column (numpy's char comparisons strip trailing white space)
+        k = case[2]
+        variants = ["x", "x ", " x", "x\t", "x\n", "", " "]
+        pick = [variants[i] for i in rng.permutation(len(variants))[: int(rng.integers(3, 6))]]
+        col = int(rng.integers(0, k))
+        groups = [tuple(v if c == col else "a" for c in range(k)) for v in pick]
     else:
         k = case[2]
         pools = [TYPED[int(rng.integers(len(TYPED)))] for _ in range(k)]
@@ -250,6 +257,26 @@ def _check_moment(case):
             mom.setdefault((ev[i], gid[i]), set()).add((cft[i] if cft else ()) + sft[i])
         if any(len(v) != 1 for v in mom.values()) or {next(iter(v)): int(round(pge[kk])) for kk, v in mom.items()} != cells:
             return _viol(fp, "moment:partition-vs-MetricFrame", f"{mname} partition differs from MetricFrame's non-empty intersectional groups", case, info)
+    # the constraint VALUES use the same partition: gamma[(+, e, g)] = mean of h over the rows of (event e, group g) minus mean of h over the rows of event e,
+    # with the groups taken by tuple equality from the raw rows (a predictor that separates the rows: h_i = 1 for every third row, 0.5 for the next)
+    h = np.array([(1.0, 0.5, 0.0)[i % 3] for i in range(n)])
+    try:
+        gam = m.gamma(lambda X_: h)
+    except Exception as ex:
+        return _viol(fp, f"{mname}:gamma-raises", f"{mname}.gamma raised {ex!r}"[:300], case, info)
+    rows_of = {}
+    for i in act:
+        rows_of.setdefault((ev[i], gid[i]), []).append(i)
+    for (e, g), idxs in rows_of.items():
+        ev_rows = [i for i in act if ev[i] == e]
+        want_g = float(np.mean(h[idxs]) - np.mean(h[ev_rows]))
+        try:
+            got_g = float(gam[("+", e, g)])
+        except Exception:
+            return _viol(fp, "moment:gamma-index", f"{mname}.gamma has no entry ('+', {e!r}, {g!r})", case, info)
+        if abs(got_g - want_g) > 1e-9:
+            return _viol(fp, "moment:gamma-value", f"{mname}.gamma[('+', {e!r}, {g!r})] = {got_g!r} but the rows carrying exactly that (event, sensitive tuple) give {want_g!r} "
+                         f"(tuple {sft[idxs[0]]!r}, {len(idxs)} row(s))", case, info)
     return (len(set(sft)) > 1, fp, None)
 
 
@@ -392,7 +419,8 @@ def run_bounded(rep):
                              ("threshold_tables", "to", "ThresholdOptimizer fit keys and per-row _pmf_predict vs a fit on injective codes")):
         bs2 = 45 if q else 100
         cases = _block_cases(kind, 2, L2, bs2, s0) + _block_cases(kind, 3, L3, 32 if q else 120, s0 + 50000) + \
-            [(kind, "typed", 2 + i % 2, s0 + 90000 + i, i) for i in range(240 if q else 1000)]
+            [(kind, "typed", 2 + i % 2, s0 + 90000 + i, i) for i in range(240 if q else 1000)] + \
+            [(kind, "ws", 2 + i % 2, s0 + 95000 + i, i) for i in range(24 if q else 120)]
         run_cases(rep, name,
                   rule=f"{text}; tables = unions of two blocks of the exhaustive tuple sets (every pair of tuples of length <= {L2}/{L3} shares a table) and seeded "
                        "tables of typed numeric-looking values; control tuples from 6 colliding-looking pairs; non-trivial = >= 2 distinct tuples; distinct by case",
